@@ -320,7 +320,7 @@ func baseScript(timeoutMs int) string {
 	return b.String()
 }
 
-func buildScript(asserts []Term, timeoutMs int, kind string) string {
+func buildScript(asserts []Term, timeoutMs int, kind string, extraSyms ...string) string {
 	var b strings.Builder
 	inc := kind == "z3inc"
 	if inc {
@@ -356,6 +356,8 @@ func buildScript(asserts []Term, timeoutMs int, kind string) string {
 		b.WriteString(ufDecls[u])
 		b.WriteByte('\n')
 	}
+	all = append(all, append([]string{}, extraSyms...))
+	sort.Strings(all[len(all)-1])
 	for _, s := range mergeSyms(all...) {
 		fmt.Fprintf(&b, "(declare-const %s %s)\n", s, sortOfSym(s).smt())
 	}
@@ -487,7 +489,7 @@ func (s *Solver) runOn(kind string, asserts []Term, syms []string, timeout time.
 	if err != nil {
 		return "error: " + err.Error(), nil
 	}
-	script := buildScript(asserts, int(timeout/time.Millisecond), p.kind)
+	script := buildScript(asserts, int(timeout/time.Millisecond), p.kind, syms...)
 	letters, marks := unicodeApps(script)
 	cegar := len(letters)+len(marks) > 0
 	if cegar {
